@@ -208,6 +208,24 @@ def treeShape : Val → Bool
     | _ => false
   | _ => false
 
+/-- `WrapHashFromArray` (hashtype.go): when the array's inferred element type is an Array type — i.e. it is non-empty and
+    every element is an array or a hash entry — each element must be a pair `[k, v]`; otherwise the elements are taken
+    two by two.  `none` = the Go code raises an argument error.  Equal keys are NOT merged. -/
+def isPairish : Val → Bool
+  | .arr _ => true
+  | .ent _ _ => true
+  | _ => false
+def pairOf : Val → Option Val
+  | .arr [k, v] => some (.ent k v)
+  | .ent k v => some (.ent k v)
+  | _ => none
+def twoByTwo : List Val → Option (List Val)
+  | [] => some []
+  | [_] => none
+  | k :: v :: rest => (twoByTwo rest).map (fun es => .ent k v :: es)
+def pairsOfArray (ys : List Val) : Option (List Val) :=
+  if !ys.isEmpty && ys.all isPairish then ys.mapM pairOf else twoByTwo ys
+
 def pairsFlat : List Val → List Val
   | [] => []
   | e :: es => entKey e :: entVal e :: pairsFlat es
@@ -236,6 +254,8 @@ inductive Op
   | mput (r : Nat) (k v : Elem) | mputAll (r s : Nat) | get (r : Nat) (x : Elem)
   | chunk (r : Nat) (n k : Int)            -- the k-th slice EachSlice(n, …) hands to its consumer
   | asArray (r : Nat)
+  | ser (r : Nat)                          -- serialization.NewSerializer(…).Convert(v, collector); collector.Value()
+  | resolve (r : Nat)                      -- types.ResolveDeferred(c, v, scope)
   | obs (r : Nat) (s : Option Nat)          -- ptype dtype tostring tokey walk ser / equals
   deriving Repr
 
@@ -254,7 +274,7 @@ inductive NewSite
   | arrAdd | arrAddAll | arrDelete | arrDeleteAll | arrMap | arrSelect | arrReject | arrSort | arrFlatten0 | arrUnique2
   | hashAdd0 | hashAdd1 | hashAddAll0 | hashDelete0 | hashDeleteAll1 | hashMap | hashMapValues | hashSelect | hashReject
   | hashSelectPairs | hashRejectPairs | hashMerge | hashSort | hashFlatten0 | hashFlatten1 | hashKeys | hashValues
-  | mutPutAll | hashEachSlice | hashAsArray
+  | mutPutAll | hashEachSlice | hashAsArray | hashMapEntries | hashAddAll1
   deriving Repr, DecidableEq
 
 /-- constructors -/
@@ -279,6 +299,7 @@ def NewSite.key : NewSite → String
   | .hashMerge => "Hash.Merge/r0" | .hashSort => "Hash.Sort/r0" | .hashFlatten0 => "Hash.Flatten/r0"
   | .hashFlatten1 => "Hash.Flatten/r1" | .hashKeys => "Hash.Keys/r0" | .hashValues => "Hash.Values/r0"
   | .mutPutAll => "MutableHashValue.PutAll/a0" | .hashEachSlice => "Hash.EachSlice/c0" | .hashAsArray => "Hash.AsArray/r0"
+  | .hashMapEntries => "Hash.MapEntries/r0" | .hashAddAll1 => "Hash.AddAll/r1"
 
 /-- the method a site belongs to (its in-place-write rows are `<method>/w<n>`) -/
 def NewSite.method : NewSite → String
@@ -292,6 +313,7 @@ def NewSite.method : NewSite → String
   | .hashMerge => "Hash.Merge" | .hashSort => "Hash.Sort" | .hashFlatten0 => "Hash.Flatten"
   | .hashFlatten1 => "Hash.Flatten" | .hashKeys => "Hash.Keys" | .hashValues => "Hash.Values"
   | .mutPutAll => "MutableHashValue.PutAll" | .hashEachSlice => "Hash.EachSlice" | .hashAsArray => "Hash.AsArray"
+  | .hashMapEntries => "Hash.MapEntries" | .hashAddAll1 => "Hash.AddAll"
 
 def CtorSite.key : CtorSite → String
   | .wrapValues => "WrapValues/r0" | .wrapHash => "WrapHash/r0" | .buildArray => "BuildArray/r0"
@@ -349,6 +371,23 @@ def hasLiteralH : List Val → Bool
   | _ :: _ => false
 end
 
+mutual
+/-- values the rich-data serializer hands to a collector unchanged (serialization/serializer.go `toData`: scalars,
+    arrays, hashes — the collector can do complex keys); a hash entry outside a hash is not Data -/
+def Val.plain : Val → Bool
+  | .ent _ _ => false
+  | .arr xs => plainL xs
+  | .hsh es => plainH es
+  | _ => true
+def plainL : List Val → Bool
+  | [] => true
+  | x :: xs => x.plain && plainL xs
+def plainH : List Val → Bool
+  | [] => true
+  | .ent k v :: es => k.plain && v.plain && plainH es
+  | _ :: _ => false
+end
+
 /-- array receiver -/
 def arrSem (look : Look) (r : Nat) (xs : List Val) : Op → Out
   | .add _ x => match elemVal look x with
@@ -374,8 +413,11 @@ def arrSem (look : Look) (r : Nat) (xs : List Val) : Op → Out
     else if (dedupe xs).length == xs.length then .same .arrUnique1 .arr r
     else .new .arrUnique2 .arr r (dedupe xs) false
   | .chunk _ n k =>
-    if n < 1 || n > 64 || k < 0 || k * n ≥ (xs.length : Int) then inapplicable
+    if n < 1 then .mark "!"                -- EachSlice: a slice size below one is an argument error
+    else if n > 64 || k < 0 || k * n ≥ (xs.length : Int) then inapplicable
     else .window .arrEachSlice .arr r (k * n) (min (xs.length : Int) ((k + 1) * n))
+  | .ser _ => if plainL xs then .alloc .buildArray .arr xs.length xs else .mark "-"
+  | .resolve _ => .new .arrMap .arr r xs false
   | .at _ i =>
     if i < 0 then inapplicable else
     match xs[i.toNat]? with
@@ -404,7 +446,9 @@ def hashSem (look : Look) (r : Nat) (isMut : Bool) (es : List Val) : Op → Out
       | none => .same .hashDelete1 .hsh r
     | none => inapplicable
   | .addAll _ s => match look s with
-    | some (.arr, _) => inapplicable
+    | some (.arr, ys) => match pairsOfArray ys with
+      | some os => .new .hashAddAll1 .hsh r (mergeEntries es os) false
+      | none => .mark "!"
     | some (_, os) => .new .hashAddAll0 .hsh r (mergeEntries es os) false
     | none => inapplicable
   | .deleteAll _ s =>
@@ -439,8 +483,11 @@ def hashSem (look : Look) (r : Nat) (isMut : Bool) (es : List Val) : Op → Out
     | some k', some v' => .new .mutPutAll .mut r (mergeEntries es [.ent k' v']) true
     | _, _ => inapplicable
   | .chunk _ n k =>
-    if n < 1 || n > 64 || k < 0 || k * n ≥ (es.length : Int) then inapplicable
+    if n < 1 then .mark "!"
+    else if n > 64 || k < 0 || k * n ≥ (es.length : Int) then inapplicable
     else .new .hashEachSlice .arr r ((es.drop (k * n).toNat).take n.toNat) false
+  | .ser _ => if !isMut && plainH es then .alloc .buildHash .hsh es.length es else .mark "-"
+  | .resolve _ => if isMut then inapplicable else .new .hashMapEntries .hsh r es false
   | .asArray _ => .new .hashAsArray .arr r (es.map (fun e => .arr [entKey e, entVal e])) false
   | .get _ x =>
     match elemVal look x with
@@ -466,7 +513,7 @@ def Op.recv? : Op → Option Nat
   | .add r _ | .addAll r _ | .delete r _ | .deleteAll r _ | .slice r _ _ | .map r _ | .select r _ | .reject r _
   | .sort r | .flatten r | .unique r | .at r _ | .merge r _ | .keys r | .values r | .entries r | .mapValues r _
   | .selectPairs r _ | .rejectPairs r _ | .mput r _ _ | .mputAll r _ | .get r _ | .chunk r _ _ | .asArray r
-  | .obs r _ => some r
+  | .ser r | .resolve r | .obs r _ => some r
 
 def opSem (look : Look) (op : Op) : Out :=
   match op with
